@@ -1072,9 +1072,15 @@ def r20(k: Kit) -> None:
         for nd, c in k.calls_named(fi, '_SFTPFileReader'):
             n += 1
             a0 = c.args[0] if c.args else None
-            ok = isinstance(a0, ast.BoolOp) and isinstance(a0.op, ast.Or) \
-                and dotted(a0.values[0]) == 'self.read_len' and \
-                len(a0.values) > 1
+
+            def nonzero(e):
+                return isinstance(e, ast.BoolOp) and isinstance(
+                    e.op, ast.Or) and dotted(e.values[0]) == \
+                    'self.read_len' and len(e.values) > 1
+            ok = nonzero(a0)
+            if not ok and isinstance(a0, ast.Name):
+                lv, fr = expr_sources(g, k.rd(fi), nd.id, a0)
+                ok = bool(lv) and all(nonzero(x) for x in lv)
             if not ok and a0 is not None and dotted(a0) == 'self.read_len':
                 ok = g.guarded_by(nd.id, lambda x: True if x.kind == 'atom'
                                   and dotted(x.ast) == 'self.read_len'
@@ -1104,7 +1110,17 @@ def r21(k: Kit) -> None:
     rep.floor('C12.R21', 'copy-data requests', len(calls), 1)
     for nd, c in calls:
         a = c.args[3] if len(c.args) > 3 else None
-        ok = isinstance(a, ast.Name) and a.id == 'length'
+        from ..index import parent as _par21
+        loopvar = None
+        x_ = c
+        while x_ is not None and x_ is not fi.node:
+            x_ = _par21(x_)
+            if isinstance(x_, (ast.AsyncFor, ast.For)) and isinstance(
+                    x_.target, ast.Tuple) and len(x_.target.elts) == 2:
+                loopvar = dotted(x_.target.elts[1])
+                break
+        ok = isinstance(a, ast.Name) and loopvar is not None and \
+            a.id == loopvar
         rep.check(ok, 'C12.R21', key(fi, 'announced length is requested'),
                   'remote_copy(src, dst, offset, length, offset)',
                   f'the length argument is `{norm(a) if a is not None else "?"}`'
